@@ -64,25 +64,7 @@ theorem old_graph_sanitiser_unsafe :
     flags — whenever the function returns, the returned string is a well-formed XML document. -/
 theorem visualizeGraph_wf (ν : Nums) (a : GraphArgs) (d : Drawing) (hν : SafeNums ν)
     (h : visualizeGraph ν a = .ok d) : wf (render d.svg) = true := by
-  unfold visualizeGraph at h
-  simp only [bind, Except.bind, pure, Except.pure] at h
-  split at h
-  · simp at h
-  split at h
-  · simp at h
-  rename_i nodeColors hcolors
-  split at h
-  · simp at h
-  rename_i pos hpos
-  split at h
-  · simp at h
-  rename_i edges hedges
-  split at h
-  · simp at h
-  rename_i nodes hnodes
-  split at h
-  · simp at h
-  rename_i text htext
+  obtain ⟨nodeColors, pos, edges, nodes, text, hpos, hedges, hnodes, htext, h⟩ := visualizeGraph_ok h
   rw [writeFile_svg h]
   have he2 := graphEdgeParts_inner hν a pos hedges
   exact svgDoc_wf hν _ _ (Inner.append (Inner.flatMap _ _ (fun c => svgMarker_inner c))
@@ -112,33 +94,8 @@ example : (match visualizeGraph νhash exampleGraph with | .ok d => d.svg.length
     for every biadjacency matrix, names of rows and columns (arbitrary code points) and options. -/
 theorem visualizeBigraph_wf (ν : Nums) (a : BigraphArgs) (d : Drawing) (hν : SafeNums ν)
     (h : visualizeBigraph ν a = .ok d) : wf (render d.svg) = true := by
-  unfold visualizeBigraph at h
-  simp only [bind, Except.bind, pure, Except.pure] at h
-  split at h
-  · simp at h
-  rename_i colorsRow hrow
-  split at h
-  · simp at h
-  rename_i colorsCol hcol
-  split at h
-  · simp at h
-  split at h
-  · simp at h
-  split at h
-  · simp at h
-  rename_i edges hedges
-  split at h
-  · simp at h
-  rename_i nodesRow hnr
-  split at h
-  · simp at h
-  rename_i nodesCol hnc
-  split at h
-  · simp at h
-  rename_i textRow htr
-  split at h
-  · simp at h
-  rename_i textCol htc
+  obtain ⟨colorsRow, colorsCol, edges, nodesRow, nodesCol, textRow, textCol, hedges, hnr, hnc, htr, htc, h⟩ :=
+    visualizeBigraph_ok h
   rw [writeFile_svg h]
   exact svgDoc_wf hν _ _ (Inner.append (bigraphEdges_inner hν a hedges)
     (Inner.append (nodeLoop_inner hν _ _ _ _ hnr) (Inner.append (nodeLoop_inner hν _ _ _ _ hnc)
@@ -233,7 +190,8 @@ structure GraphDomain (a : GraphArgs) : Prop where
       given the same position.  The coincidence test is the model's: exact rational arithmetic on the rescaled
       positions, which is the same as equality of the given positions (`rescale_keeps_positions_apart`).  The code
       tests the float64 images: the two agree unless distinct positions are closer than the float64 resolution of
-      the rescaled layout (known finding F-C20-subresolution).  `np.argsort` may return any permutation (`SortOk`).
+      the rescaled layout; such inputs are outside the domain of the model (the harness detects them from the float64
+      images and evaluates the specification on the positions as drawn).  `np.argsort` may return any permutation (`SortOk`).
       Which nodes a path joins is *not* part of this statement (it is checked on every run by the geometry spec
       lines, not proved);
     * one `text` element per node `0 … n-1` in this order when names are given, the `i`-th showing exactly `names[i]`
@@ -253,8 +211,9 @@ example : GraphDomain exampleGraph :=
     and a non-zero scale, the rescaled positions of two nodes are equal iff they were given the same position.
     (This is a statement about the rational model of `rescale`. In float64 the images of two distinct positions can
     collide when they are closer than the resolution of the rescaled layout — e.g. `(0,0)` and `(2^-60, 0)` on a
-    layout of span 1 —; the tie to the code assumes they do not, and the harness records the cases where they do as
-    F-C20-subresolution.) -/
+    layout of span 1 —; the tie to the code is claimed only where they do not: the harness computes the float64
+    images itself and, where two distinct positions collide, skips the run line and evaluates the specification on
+    the positions as drawn.) -/
 theorem rescale_keeps_positions_apart (a : GraphArgs) (pos : List (Rat × Rat)) (h : finalPos a = .ok pos)
     (hnd : truthy a.width = true ∨ truthy a.height = true) (hs : a.lay.scale ≠ 0)
     (i j : Nat) (hi : i < a.pos.length) (hj : j < a.pos.length) :
